@@ -9,11 +9,12 @@ import Asn1cModel.Proofs.StackGuard
   frames are constant per nesting level and that the real allocations are the modelled ones is observed
   on every run by `vlib/props/c15.py` (K leg), which also evaluates the property directly on C (P leg).
 
-  Part A  which decoders check (regenerated table)              — `decide` over the whole table
-  Part B  stack: bounded depth, deep input fails, never overflows; F13 counter-example
+  Part A  which decoders check (regenerated table)              — `decide` over the whole table, no exceptions
+  Part B  stack: bounded depth, deep input fails, never overflows — for every syntax; the former F13 witness
   Part C  heap: length checked before allocation
   Part D  heap: collections, zero-width guard, counter-example without the guard
-  Part E  heap: UPER strings — SIZE preallocation, fragments
+  Part E  heap: UPER strings — SIZE constraint (fixed: allocated up front; variable: what the length says), fragments,
+          zero-width characters
   Part F  heap: BER OCTET STRING buffer growth and heap-allocated nesting stack
 -/
 namespace Asn1c.Props.C15
@@ -22,13 +23,35 @@ open Asn1c.Generated.StackGuard
 
 /-! ## Part A — the guard inventory of the current source tree -/
 
-/-- Every decoder through which a recursive type recurses — BER (through `ber_check_tags`), UPER, and the
-    OER SEQUENCE / SET OF decoders, plus `ber_skip_length` — performs an effective
-    `if(ASN__STACK_OVERFLOW_CHECK(..))`, with exactly the exceptions of finding F13
-    (`knownUnguarded`: the XER constructed decoders and `CHOICE_decode_oer`).
-    Removing the check from any guarded decoder breaks this theorem at build time. -/
-theorem all_recursive_ber_uper_decoders_guarded :
-    ∀ d ∈ recursingDecoders, d ∉ knownUnguarded → isGuarded d = true := by
+/-- **Every constructed decoder entry is guarded, in every syntax.**  Each row of the regenerated table that is
+    an entry point of a constructed type — `SEQUENCE/SET/SET_OF/CHOICE_decode_{ber,uper,oer,xer}`, whichever of
+    them exist in the source tree — performs an effective `if(ASN__STACK_OVERFLOW_CHECK(..))` on entry (the BER
+    ones through `ber_check_tags`).  No exception list: finding F13 (XER constructed decoders and
+    `CHOICE_decode_oer` unguarded) is repaired.  Removing the check from any of them, or adding a constructed
+    decoder without it, breaks this theorem at build time. -/
+theorem all_constructed_decoders_guarded :
+    ∀ d ∈ constructedDecoders, isGuarded d = true := by
+  decide +kernel
+
+/-- the table has all four syntaxes: 14 constructed entry points (no SET decoder for UPER / OER exists), each
+    of them a row of `guardedDecoders` -/
+theorem constructed_decoders_inventory :
+    constructedDecoders.length = 14 ∧
+    (∀ d ∈ constructedDecoders, (guardedDecoders.map (·.1)).contains d = true) := by
+  decide +kernel
+
+/-- Every decoder through which a recursive type recurses — BER (through `ber_check_tags`), UPER, OER and XER,
+    plus `ber_skip_length` — performs an effective `if(ASN__STACK_OVERFLOW_CHECK(..))`; every constructed entry
+    point of the table is in this list. -/
+theorem all_recursing_decoders_guarded :
+    (∀ d ∈ recursingDecoders, isGuarded d = true) ∧
+    (∀ d ∈ constructedDecoders, d ∈ recursingDecoders) := by
+  decide +kernel
+
+/-- no decoder calls the check and throws its verdict away (before the repair: the two open-type readers of
+    per_opentype.c), and those two now test it -/
+theorem no_discarded_checks :
+    discardedChecks = [] ∧ (∀ d ∈ formerlyDiscarding, isGuarded d = true) := by
   decide +kernel
 
 /-- the guarded ones, spelled out -/
@@ -38,7 +61,10 @@ theorem guarded_decoders_spelled_out :
     isGuarded "ber_skip_length" = true ∧ isGuarded "ber_check_tags" = true ∧
     isGuarded "SEQUENCE_decode_uper" = true ∧ isGuarded "CHOICE_decode_uper" = true ∧
     isGuarded "SET_OF_decode_uper" = true ∧
-    isGuarded "SEQUENCE_decode_oer" = true ∧ isGuarded "SET_OF_decode_oer" = true := by
+    isGuarded "SEQUENCE_decode_oer" = true ∧ isGuarded "CHOICE_decode_oer" = true ∧
+    isGuarded "SET_OF_decode_oer" = true ∧
+    isGuarded "SEQUENCE_decode_xer" = true ∧ isGuarded "SET_decode_xer" = true ∧
+    isGuarded "CHOICE_decode_xer" = true ∧ isGuarded "SET_OF_decode_xer" = true := by
   decide +kernel
 
 /-- the check is what Part B models, a non-zero default limit exists and every top-level wrapper
@@ -113,8 +139,9 @@ theorem guarded_never_overflows (max phys Δ : Nat) (frames : List Nat) (hmax : 
 example : (decodeNest true 30000 (8 * 2 ^ 20) 256 100000).1 = .fail :=
   deep_input_fails 30000 (8 * 2 ^ 20) 256 100000 (by decide) (by decide) (by decide) (by decide)
 
-/-- **F13, general form.**  A decoder without the check (or a caller who sets `max_stack_size = 0`)
-    follows the input to any depth: as soon as `depth·δ` exceeds the real stack the outcome is `overflow`. -/
+/-- **Why the check is needed** (the mutant without it; also a caller who sets `max_stack_size = 0`, which the
+    property excludes): such a decoder follows the input to any depth, and as soon as `depth·δ` exceeds the real
+    stack the outcome is `overflow`.  This was finding F13 for the XER constructed decoders and `CHOICE_decode_oer`. -/
 theorem unguarded_overflows (g : Bool) (max phys δ depth : Nat) (hg : g = false ∨ max = 0)
     (hdeep : depth * δ > phys) : (decodeNest g max phys δ depth).1 = .overflow := by
   apply nestL_unchecked_overflows g max phys δ hg (List.replicate depth δ) 0
@@ -122,14 +149,41 @@ theorem unguarded_overflows (g : Bool) (max phys δ depth : Nat) (hg : g = false
   · exact Nat.zero_le _
   · rw [List.length_replicate]; omega
 
-/-- **F13 counter-example** (the shape of the C witness: XER / OER-CHOICE nesting 10^5, default limit
-    30000 installed but never consulted, 8 MiB stack, 96-byte frames) -/
-theorem unguarded_overflows_cex : (decodeNest false 30000 (8 * 2 ^ 20) 96 100000).1 = .overflow :=
-  unguarded_overflows false 30000 (8 * 2 ^ 20) 96 100000 (Or.inl rfl) (by decide)
+/-- **Deep input fails in every syntax.**  For every decoder `d` through which a type can recurse — any
+    constructed kind, BER / UPER / OER / XER — with the guard status *read from the source table*: a limit
+    `max ≠ 0` that leaves room for one more frame below the real stack, frames of `δ ≥ 1` bytes, input nested
+    deeper than `max/δ` ⇒ the verdict is `fail`; and at no depth is it `overflow`. -/
+theorem every_recursing_decoder_deep_input_fails (d : String) (hd : d ∈ recursingDecoders)
+    (max phys δ depth : Nat) (hmax : max ≠ 0) (hδ : 1 ≤ δ) (hphys : max + δ ≤ phys) :
+    (depth > max / δ → (decodeNest (isGuarded d) max phys δ depth).1 = .fail) ∧
+    (decodeNest (isGuarded d) max phys δ depth).1 ≠ .overflow := by
+  rw [all_recursing_decoders_guarded.1 d hd]
+  refine ⟨fun hdeep => deep_input_fails max phys δ depth hmax hδ hphys hdeep, ?_⟩
+  apply guarded_never_overflows max phys δ (List.replicate depth δ) hmax hphys
+  intro f hf; rw [List.eq_of_mem_replicate hf]; exact Nat.le_refl _
 
-/-- the guard is the only thing that differs: same input, same frames, check present ⇒ `fail` -/
-theorem guarded_same_input_fails : (decodeNest true 30000 (8 * 2 ^ 20) 96 100000).1 = .fail :=
-  deep_input_fails 30000 (8 * 2 ^ 20) 96 100000 (by decide) (by decide) (by decide) (by decide)
+/-- the same for every constructed entry point of the regenerated table -/
+theorem every_constructed_decoder_deep_input_fails (d : String) (hd : d ∈ constructedDecoders)
+    (max phys δ depth : Nat) (hmax : max ≠ 0) (hδ : 1 ≤ δ) (hphys : max + δ ≤ phys) :
+    (depth > max / δ → (decodeNest (isGuarded d) max phys δ depth).1 = .fail) ∧
+    (decodeNest (isGuarded d) max phys δ depth).1 ≠ .overflow :=
+  every_recursing_decoder_deep_input_fails d (all_recursing_decoders_guarded.2 d hd) max phys δ depth hmax hδ hphys
+
+/-- **F13 repaired — the former witness.**  The decoders of the former exception list are guarded, and the
+    former counter-example (XER / OER-CHOICE nesting 10^5, default limit 30000, 8 MiB stack, 96-byte frames:
+    `overflow` while the check was missing) now ends in `fail` for each of them. -/
+theorem f13_former_witness_fails :
+    ∀ d ∈ formerlyUnguarded, isGuarded d = true ∧
+      (decodeNest (isGuarded d) 30000 (8 * 2 ^ 20) 96 100000).1 = .fail := by
+  intro d hd
+  have hg : isGuarded d = true := by revert d; decide +kernel
+  refine ⟨hg, ?_⟩
+  rw [hg]
+  exact deep_input_fails 30000 (8 * 2 ^ 20) 96 100000 (by decide) (by decide) (by decide) (by decide)
+
+/-- what the same input did before the repair (check absent): `overflow` — the guard is the only difference -/
+theorem f13_former_witness_unguarded_overflowed : (decodeNest false 30000 (8 * 2 ^ 20) 96 100000).1 = .overflow :=
+  unguarded_overflows false 30000 (8 * 2 ^ 20) 96 100000 (Or.inl rfl) (by decide)
 
 /-! ## Part C — a length prefix is compared with the input before it sizes an allocation -/
 
@@ -429,9 +483,51 @@ theorem os_uper_heap_linear_octets (ssz : Nat) (bs : Bytes) :
   rw [bytesToBits_length] at h1
   omega
 
-/-- **SIZE preallocation (F of the property).**  With a PER-visible size constraint
-    (`effective_bits = eb`, bounds `lb..ub`) the decoder allocates `ub·bpc + 1` up front, whatever the
-    input; nothing larger than `(lb + 2^eb)·bpc + 1` is requested afterwards. -/
+/-- the zero-width character guard is in the source (`if(unit_bits == 0 && repeat) RETURN(RC_FAIL)`) -/
+theorem zero_width_char_guard_present : zeroWidthCharGuardUper = true := by decide
+
+/-- **zero_width_guard (UPER strings; F71 repaired).**  Characters that occupy no bits (single-character
+    permitted alphabet, `u = 0`), no size constraint: `os_uper_heap_linear` says nothing (`S·0 ≤ …`), but a
+    fragment is refused, so at most one unfragmented length (< 16K characters) is ever allocated — whatever
+    the input. -/
+theorem os_uper_zero_width_bounded (ssz bpc : Nat) (bits : Bits) :
+    (osUper ssz bpc 0 none bits).h.peak ≤ ssz + (16383 * bpc + 1) ∧
+    (osUper ssz bpc 0 none bits).rounds ≤ 1 := by
+  unfold osUper
+  simp only
+  rw [osUperLoop_step]
+  split
+  · simp [Heap.alloc]
+  · rename_i rawLen rep bits1 hg
+    simp only [Option.isSome_none, Bool.false_eq_true, and_false, if_false, true_and, Nat.zero_add,
+      Nat.mul_zero, Nat.not_lt_zero]
+    cases rep with
+    | true => simp [Heap.alloc]
+    | false =>
+      have hlt := uperGetLength_norepeat_lt hg
+      have hm : rawLen * bpc ≤ 16383 * bpc := Nat.mul_le_mul_right _ (by omega)
+      simp only [Bool.false_eq_true, if_false, Heap.alloc]
+      omega
+
+/-- a fragment of zero-width characters is answered with `fail` before anything is allocated for it -/
+theorem os_uper_zero_width_fragment_fails (ssz bpc : Nat) (bits : Bits) (n : Nat) (r : Bits)
+    (hg : uperGetLength none 0 bits = some (n, true, r)) :
+    (osUper ssz bpc 0 none bits).rc = .fail ∧ (osUper ssz bpc 0 none bits).h.peak = ssz := by
+  unfold osUper
+  simp only
+  rw [osUperLoop_step, hg]
+  simp [Heap.alloc]
+
+/-- **F71 repaired — the former witness**: `IA5String (FROM ("a"))`, eight octets `c4` (each announcing 64K
+    characters that cost no input; 65536 bytes of heap per octet before the repair): `fail`, only the 40-byte
+    structure is held -/
+theorem f71_former_witness_fails :
+    (osUper 40 1 0 none (bytesToBits [0xc4, 0xc4, 0xc4, 0xc4, 0xc4, 0xc4, 0xc4, 0xc4])).rc = .fail ∧
+    (osUper 40 1 0 none (bytesToBits [0xc4, 0xc4, 0xc4, 0xc4, 0xc4, 0xc4, 0xc4, 0xc4])).h.peak = 40 :=
+  os_uper_zero_width_fragment_fails 40 1 _ 65536 (bytesToBits [0xc4, 0xc4, 0xc4, 0xc4, 0xc4, 0xc4, 0xc4]) (by decide)
+
+/-- **SIZE constraint (F of the property).**  With a PER-visible size constraint (`effective_bits = eb`,
+    bounds `lb..ub`) nothing larger than `max ub (lb + 2^eb)·bpc + 1` is ever requested, whatever the input. -/
 theorem os_uper_size_prealloc (ssz bpc u eb lb ub : Nat) (bits : Bits) :
     (osUper ssz bpc u (some (eb, lb, ub)) bits).h.peak ≤ ssz + (max ub (lb + 2 ^ eb) * bpc + 1) := by
   have hm1 : ub * bpc ≤ max ub (lb + 2 ^ eb) * bpc := Nat.mul_le_mul_right _ (Nat.le_max_left _ _)
@@ -449,10 +545,40 @@ theorem os_uper_size_prealloc (ssz bpc u eb lb ub : Nat) (bits : Bits) :
       have hrep := uperGetLength_constrained_norepeat hg
       have hm : rawLen * bpc ≤ (lb + 2 ^ eb) * bpc := Nat.mul_le_mul_right _ (by omega)
       subst hrep
-      simp only [Option.isSome_some, and_true, Nat.zero_add, Bool.false_eq_true, if_false]
-      split
-      · simp only [Heap.alloc]; omega
-      · split <;> simp only [Heap.alloc, Heap.realloc] <;> omega
+      simp only [Option.isSome_none, Bool.false_eq_true, and_false, if_false, Nat.zero_add]
+      split <;> simp only [Heap.alloc] <;> omega
+
+/-- **A variable-size string holds what its length says** (F70 repaired).  `SIZE(lb..ub)` with `lb < ub`
+    (`eb ≠ 0`): once the length `n` has been read the decoder holds the structure and exactly `n·bpc + 1`
+    bytes — nothing is allocated from `ub`. -/
+theorem os_uper_variable_size_exact (ssz bpc u eb lb ub : Nat) (bits : Bits) (heb : eb ≠ 0)
+    (n : Nat) (rep : Bool) (r : Bits) (hg : uperGetLength (some eb) lb bits = some (n, rep, r)) :
+    (osUper ssz bpc u (some (eb, lb, ub)) bits).h.peak = ssz + (n * bpc + 1) := by
+  have hrep := uperGetLength_constrained_norepeat hg
+  subst hrep
+  unfold osUper
+  simp only [if_neg heb]
+  rw [osUperLoop_step, hg]
+  simp only [Option.isSome_none, Bool.false_eq_true, and_false, if_false, Nat.zero_add]
+  split <;> simp only [Heap.alloc] <;> omega
+
+/-- before the length is there, only the structure is held -/
+theorem os_uper_variable_size_starved (ssz bpc u eb lb ub : Nat) (bits : Bits) (heb : eb ≠ 0)
+    (hg : uperGetLength (some eb) lb bits = none) :
+    (osUper ssz bpc u (some (eb, lb, ub)) bits).h.peak = ssz ∧
+    (osUper ssz bpc u (some (eb, lb, ub)) bits).rc = .more := by
+  unfold osUper
+  simp only [if_neg heb]
+  rw [osUperLoop_step, hg]
+  simp [Heap.alloc]
+
+/-- **F70 repaired — the former witness**: an empty `OCTET STRING (SIZE(0..65535))` (length field `00 00`) holds
+    the 40-byte structure and one byte, not the 65536-byte preallocation it used to keep
+    (`65576` before the repair) -/
+theorem f70_former_witness_small :
+    (osUper 40 1 8 (some (16, 0, 65535)) (bytesToBits [0x00, 0x00])).h.peak = 41 ∧
+    (osUper 40 1 8 (some (16, 0, 65535)) (bytesToBits [0x00, 0x00])).rc = .ok :=
+  ⟨os_uper_variable_size_exact 40 1 8 16 0 65535 _ (by decide) 0 false [] (by decide), by decide⟩
 
 /-- `OCTET STRING (SIZE(65535))`, empty input: 65536 bytes are held (the constant of the type), rc = more -/
 example : (osUper 40 1 8 (some (0, 65535, 65535)) []).h.peak = 65576 ∧
